@@ -3,6 +3,7 @@ package an
 import (
 	"fmt"
 	"go/constant"
+	"go/token"
 	"go/types"
 	"strings"
 
@@ -63,7 +64,9 @@ func (x *Evaluator) evalCall(call *ssa.Call, idx int, e *env, c *evalCtx) Val {
 		}
 		return x.symbolic(resultType(call, idx), origin)
 	}
+	x.curCall = call
 	ne := x.bindCall(callee, cc.Args, e, c, clos, closEnv)
+	x.curCall = nil
 	ne.opaqueResult = e.opaqueResult
 	return x.summarise(ne, idx)
 }
@@ -109,6 +112,10 @@ func isAccessor(f *ssa.Function) bool {
 
 func (x *Evaluator) bindCall(callee *ssa.Function, args []ssa.Value, e *env, c *evalCtx, clos *ssa.MakeClosure, closEnv *env) *env {
 	ne := x.newEnv(callee, nil, e.tag+">"+callee.Name(), e.top, e.depth+1)
+	ne.site = e.site
+	if x.curCall != nil {
+		ne.site = e.site + "/" + x.curCall.Name()
+	}
 	if clos != nil {
 		ne.clos = clos
 		ne.parent = closEnv
@@ -243,6 +250,24 @@ func isErrorReturn(r *ssa.Return) bool {
 	switch last.(type) {
 	case *ssa.Call, *ssa.MakeInterface:
 		return true
+	}
+	// return inside the true branch of `if last != nil`
+	blk := r.Block()
+	for idom := blk.Idom(); idom != nil; idom = idom.Idom() {
+		if len(idom.Instrs) == 0 || len(idom.Succs) != 2 {
+			continue
+		}
+		ifi, ok := idom.Instrs[len(idom.Instrs)-1].(*ssa.If)
+		if !ok {
+			continue
+		}
+		bo, ok := ifi.Cond.(*ssa.BinOp)
+		if !ok || bo.Op != token.NEQ || bo.X != last {
+			continue
+		}
+		if k, ok := bo.Y.(*ssa.Const); ok && k.IsNil() && idom.Succs[0].Dominates(blk) && len(idom.Succs[0].Preds) == 1 {
+			return true
+		}
 	}
 	return false
 }
